@@ -834,3 +834,19 @@ package bbolt
 //@   ensures [keyvalue] v != nil && len(keys) >= 1 && res == nil ==> callstotal("(*Bucket).Put") == old(callstotal("(*Bucket).Put")) + 1 && ((old(size) + len(k) + len(v) <= txMaxSize || txMaxSize == 0) ==> lastarg("(*Bucket).Put", 1) == old(bytesval(k)) && lastarg("(*Bucket).Put", 2) == old(bytesval(v))) && callstotal("(*Bucket).CreateBucket") == old(callstotal("(*Bucket).CreateBucket"))
 //@   ensures [bucket] v == nil && res == nil ==> callstotal("(*Bucket).CreateBucket") == old(callstotal("(*Bucket).CreateBucket")) + 1 && ((old(size) + len(k) + len(v) <= txMaxSize || txMaxSize == 0) ==> lastarg("(*Bucket).CreateBucket", 1) == old(bytesval(k))) && callstotal("(*Bucket).SetSequence") == old(callstotal("(*Bucket).SetSequence")) + 1 && lastarg("(*Bucket).SetSequence", 1) == seq && callstotal("(*Bucket).Put") == old(callstotal("(*Bucket).Put"))
 //@   ensures [fill] v != nil && len(keys) >= 1 && res == nil ==> lastarg("(*Bucket).Put", 0) != 0
+
+//@ func walk
+//@   opaque
+//@   invokes walkFn
+//@   ensures callstotal("(*Tx).Commit") >= old(callstotal("(*Tx).Commit"))
+
+//@ func Compact$1
+//@   props C15
+//@   requires tx != nil && !tx.managed
+//@   requires tx.db != nil && tx.writable ==> tx.db.rwlock.held && tx.meta != nil && tx.db.freelist != nil
+//@   requires tx.db != nil && !tx.writable ==> tx.db.mmaplock.rcount >= 1 && tx.meta != nil && !tx.db.metalock.held
+//@   ensures [rolledback] callstotal("(*Tx).Rollback") == old(callstotal("(*Tx).Rollback")) + 1 && lastarg("(*Tx).Rollback", 0) == old(tx)
+
+//@ F [compact.src.readonly] props C15 : noreach bbolt.walk* : bbolt.(*Bucket).Put, bbolt.(*Bucket).Delete, bbolt.(*Bucket).CreateBucket, bbolt.(*Bucket).CreateBucketIfNotExists, bbolt.(*Bucket).DeleteBucket, bbolt.(*Bucket).MoveBucket, bbolt.(*Bucket).SetSequence, bbolt.(*Bucket).NextSequence, bbolt.(*DB).Update, bbolt.(*DB).Batch, bbolt.(*Tx).Commit, bbolt.(*Cursor).Delete
+//@ F [compact.src.view] props C15 : callers bbolt.walkBucket subset bbolt.walk, bbolt.walkBucket
+//@ F [compact.finalcommit] props C15 : callers bbolt.Compact$2 subset bbolt.Compact
